@@ -437,6 +437,8 @@ func (g *Gen) EmitDecls(b *strings.Builder) {
 	}
 	for _, s := range g.strConstOrder {
 		id := -g.strConsts[s]
+		// facts about one constant are grouped in a block that is only included when the constant is mentioned
+		fmt.Fprintf(b, "; @const (mkstr (- %d) \n", id)
 		fmt.Fprintf(b, "(assert (= (blen (- %d)) %d))\n", id, len(s))
 		for i := 0; i < len(s); i++ {
 			fmt.Fprintf(b, "(assert (= (sbyte (- %d) %d) %d))\n", id, i, s[i])
@@ -448,14 +450,11 @@ func (g *Gen) EmitDecls(b *strings.Builder) {
 			k++
 		}
 		fmt.Fprintf(b, "(assert (= (nr (- %d)) %d))\n", id, k)
+		// content keys of distinct constants are distinct numerals
+		fmt.Fprintf(b, "(assert (= (skey %s) (- %d)))\n", g.StrConst(s), id)
+		fmt.Fprintf(b, "; @endconst\n")
 	}
-	// distinct constants have distinct keys
-	for i, s := range g.strConstOrder {
-		for _, t := range g.strConstOrder[:i] {
-			fmt.Fprintf(b, "(assert (not (= (skey %s) (skey %s))))\n", g.StrConst(s), g.StrConst(t))
-		}
-		fmt.Fprintf(b, "(assert (not (= (skey %s) (skey emptystr))))\n", g.StrConst(s))
-	}
+	fmt.Fprintf(b, "(assert (= (skey emptystr) 0))\n")
 	for _, n := range g.globalOrder {
 		fmt.Fprintf(b, "(declare-const %s %s)\n", n, g.globals[n])
 	}
